@@ -326,6 +326,19 @@ func (d *Driver) Apply(s Step) bool {
 		c.AdminEv(ev, &mctypes.MsgTogglePoolEdenRewards{Authority: c.gov(), PoolId: uint64(s.I("p")), Enable: s.S("on") != "false"})
 		return true
 
+	case "govParamIndex": // the i-th numeric leaf of the modules' params (enumerated from the running app) set to an extreme
+		if paramLeaves == nil {
+			paramLeaves = c.enumerateParamLeaves()
+		}
+		if len(paramLeaves) == 0 {
+			return false
+		}
+		lf := paramLeaves[int(s.I("i"))%len(paramLeaves)]
+		return d.GovParam(lf.Module, lf.Path, s.S("value"))
+
+	case "govParam":
+		return d.GovParam(s.S("module"), s.S("field"), s.S("value"))
+
 	case "govVestInfo": // governance: MsgUpdateVestingInfo for ueden
 		msg := &committypes.MsgUpdateVestingInfo{Authority: c.gov(), BaseDenom: "ueden", VestingDenom: "uelys", NumBlocks: s.I("num"),
 			VestNowFactor: 90, NumMaxVestings: s.I("max")}
